@@ -40,6 +40,8 @@ func c06Calls(fsType string) []fsx.Op {
 		ops = append(ops,
 			fsx.Op{K: "OpenWriteClose", P: n, Flag: syscall.O_WRONLY | syscall.O_CREAT | syscall.O_EXCL, Perm: 0o644},
 			fsx.Op{K: "OpenWriteClose", P: n, Flag: syscall.O_RDWR | syscall.O_CREAT | syscall.O_TRUNC, Perm: 0o644},
+			// creation without a write access mode (the lock-file idiom): still a mutation of the directory
+			fsx.Op{K: "OpenWriteClose", P: n, Flag: syscall.O_RDONLY | syscall.O_CREAT | syscall.O_EXCL, Perm: 0o644},
 			fsx.Op{K: "Mkdir", P: n, Perm: 0o755},
 			fsx.Op{K: "Remove", P: n},
 			fsx.Op{K: "Truncate", P: n, N: 1},
@@ -544,6 +546,22 @@ func init() {
 							}
 							c06Program(c, fsType, ti, tree, progs, c.Pick(2, 3), c.Pick(600, 4000), c.Pick(20, 60), st, r)
 						}
+					}
+				}
+				// two directory moves with disjoint pairs of locked directories, each moving a directory below the one the
+				// other moves: a cycle detached from the root if both get through (plus a third worker looking on)
+				{
+					tree := []fsx.Op{{K: "Mkdir", P: "/w", Perm: 0o755}, {K: "Mkdir", P: "/w/a", Perm: 0o755}, {K: "Mkdir", P: "/w/a/b", Perm: 0o755}, {K: "Mkdir", P: "/w/c", Perm: 0o755}, {K: "WriteFile", P: "/w/a/b/m", Data: "m", Perm: 0o644}}
+					for _, progs := range [][][]fsx.Op{
+						{{{K: "Rename", P: "/w/a/b", Q: "/w/c/b"}}, {{K: "Rename", P: "/w/c", Q: "/w/a/b/c"}}},
+						{{{K: "Rename", P: "/w/a/b", Q: "/w/c/b"}}, {{K: "Rename", P: "/w/c", Q: "/w/a/b/c"}}, {{K: "ReadDir", P: "/w"}, {K: "Stat", P: "/w/a/b/m"}}},
+						{{{K: "Rename", P: "/w/a", Q: "/w/c/a"}}, {{K: "Rename", P: "/w/c", Q: "/w/a/b/c"}}},
+					} {
+						idx++
+						if idx%c.NShards != c.Shard {
+							continue
+						}
+						c06Program(c, fsType, 9, tree, progs, c.Pick(2, 3), c.Pick(600, 4000), c.Pick(20, 60), st, r)
 					}
 				}
 				// larger random programs
